@@ -59,13 +59,27 @@ def canon(d, in_iface=False):
     return d
 
 
+def prop_names(s, acc=None):
+    acc = set() if acc is None else acc
+    if isinstance(s, dict):
+        for k, v in s.get("properties", {}).items() if isinstance(s.get("properties"), dict) else ():
+            acc.add(k)
+        for v in s.values():
+            prop_names(v, acc)
+    elif isinstance(s, list):
+        for v in s:
+            prop_names(v, acc)
+    return acc
+
+
 def run(ctx):
     ctx.proof_step(PROPS_FILE)
     n = 40 if ctx.tier == "quick" else 500
     sysm = []
     sysm += c06.systematic()[::3] + [x for x in c06.systematic() if '%' in json.dumps(x)] + c04.systematic()[::9] + c05.e2e_systematic(ctx)[::7] + c05.e2e_fractional() + [r for r in c08.systematic()[::4]] + [x[0] for x in c09.systematic()[::5]]
     # keys that are delicate for one of the two decoders (struct-tag syntax, YAML plain scalars): required and optional, with constraints
-    for keys in (["-", "plain"], ["yes", "null", "0"], ["a b", "x:y", "#c", "~t"], ["-", "yes", "a b", "other"]):
+    for keys in (["-", "plain"], ["yes", "null", "0"], ["a b", "x:y", "#c", "~t"], ["-", "yes", "a b", "other"], ["id", "path\\name"], ["tab\\there", "ok", "back\\\\slash"]):
+        # (the last two: names outside the guard of C14 - neither decoder binds them on the unchanged tree - that still compile; only the agreement of the two decoders is judged)
         for req in (True, False):
             props = {}
             for i, k in enumerate(keys):
@@ -89,7 +103,7 @@ def run(ctx):
     for c in base:
         strip_numeric_enums(c.schema)
         docs = [d for d in c.docs if in_scope(c, d)]
-        dash = '"-"' in json.dumps(c.schema)      # a required key "-" is not bound by either decoder (finding C02-required-dash-key): only the JSON/YAML agreement is judged
+        dash = '"-"' in json.dumps(c.schema) or any(ch in k for k in prop_names(c.schema) for ch in '\\",')      # a required key "-" is not bound by either decoder (finding C02-required-dash-key): only the JSON/YAML agreement is judged
         cj = Case(c.cid + "j", c.schema, copy.deepcopy(docs), extra_imports=True, wire="json", fam=c.fam, no_model=dash)
         cy = Case(c.cid + "y", c.schema, copy.deepcopy(docs), extra_imports=True, wire="yaml", fam=c.fam)
         cases += [cj, cy]
